@@ -390,8 +390,18 @@ func Build(n *Node, rec *Recorder) z.ZogSchema {
 		return s
 	case "struct":
 		sch := z.Schema{}
-		for _, f := range n.Fields {
-			sch[f.Key] = Build(f.S, rec)
+		built := make([]z.ZogSchema, len(n.Fields))
+		for i, f := range n.Fields {
+			built[i] = Build(f.S, rec)
+		}
+		if len(n.BuildOrder) == len(n.Fields) {
+			for _, i := range n.BuildOrder {
+				sch[n.Fields[i].Key] = built[i]
+			}
+		} else {
+			for i, f := range n.Fields {
+				sch[f.Key] = built[i]
+			}
 		}
 		s := z.Struct(sch)
 		for _, t := range n.Tests {
